@@ -80,6 +80,9 @@ Proof.
   destruct (Z.eqb_spec k f); [discriminate|]. cbn [negb]. f_equal. apply IH, H.
 Qed.
 
+Lemma tdel_cons_same t f o : tfind t f = None -> tdel ((f, o) :: t) f = t.
+Proof. intro H. cbn [tdel filter fst]. rewrite Z.eqb_refl. cbn [negb]. apply tdel_notin, H. Qed.
+
 Lemma tdel_new t o : tdel ((fresh t, o) :: t) (fresh t) = t.
 Proof. cbn [tdel filter fst]. rewrite Z.eqb_refl. cbn [negb]. apply tdel_notin, tfind_fresh. Qed.
 
@@ -177,32 +180,32 @@ Proof.
       rewrite Nat.eqb_refl. change (beq (b "thread-self") (b "thread-self")) with true. cbn [andb as_stat Static.run].
       reflexivity. }
     rewrite Hinto. rewrite (run_bind s rp). unfold presolve. rewrite Ho2.
-    change (procfs_flags_invalid OPEN_BASE_FLAGS) with false.
+    change (procfs_flags_invalid OPEN_BASE_FLAGS) with false. cbv iota.
     rewrite (run_openat2_resolve t (ph_fd gh) (b "thread-self") (P_THREAD s) _ _ (tget_valid _ _ _ HP) eq_refl).
     2:{ intros fl m r. cbn [sem]. rewrite HP, Nat.eqb_refl. reflexivity. }
     rewrite (run_bind s rp), (run_verify _ (fresh t) (P_THREAD s) (tget_new t _)) by (unfold P_THREAD; lia).
     reflexivity. }
   rewrite Hbase. set (f1 := fresh t). set (t1 := (f1, P_THREAD s) :: t).
   assert (Hf1 : tget t1 f1 = Some (P_THREAD s)) by apply tget_new.
+  assert (Hfd1 : tget t1 fd = Some o) by (apply tget_new_old; exact Hfd).
   (* the lookup of fd/N below the thread directory *)
   rewrite (run_bind s rp). unfold presolve. rewrite Ho2.
-  change (procfs_flags_invalid (N.lor PROCFS_READLINK_FLAGS PROCFS_OPEN_FORCED)) with false.
+  change (procfs_flags_invalid (N.lor PROCFS_READLINK_FLAGS PROCFS_OPEN_FORCED)) with false. cbv iota.
   rewrite (run_openat2_resolve t1 f1 sub (P_LINK s o) _ _ (tget_valid _ _ _ Hf1) Hsubnul).
   2:{ intros fl m r. cbn [sem]. rewrite Hf1.
       assert (E1 : Nat.eqb (P_THREAD s) (PB s) = false) by (apply Nat.eqb_neq; unfold P_THREAD; lia).
       rewrite E1, Nat.eqb_refl. unfold sub. rewrite parse_fd_dec, Z2N.id by exact Hpos.
-      rewrite (tget_new_old t (P_THREAD s) fd o Hfd). reflexivity. }
+      rewrite Hfd1. reflexivity. }
   set (f2 := fresh t1). set (t2 := (f2, P_LINK s o) :: t1).
   assert (Hf2 : tget t2 f2 = Some (P_LINK s o)) by apply tget_new.
-  rewrite (run_bind s rp), (run_verify t2 f2 (P_LINK s o) Hf2) by (unfold P_LINK; lia).
-  cbn [Static.run]. rewrite (run_bind s rp). cbn [Static.run].
-  rewrite (run_bind s rp), run_close.
-  unfold t2, t1, f2, f1. rewrite tdel_new2. fold f1. fold t1. fold f2.
-  cbn [Static.run].
+  rewrite (run_bind s rp), (run_bind s rp), (run_verify t2 f2 (P_LINK s o) Hf2) by (unfold P_LINK; lia).
+  cbv beta iota. cbn [Static.run]. cbv beta iota. cbn [bind].
+  rewrite (run_bind s rp), run_close. cbn [Static.run]. cbv beta iota.
+  unfold t2, f2, t1, f1. rewrite tdel_new2. fold f1. fold t1. fold f2.
   (* the readlink of the magic-link *)
   set (t3 := (f2, P_LINK s o) :: t).
   assert (Hf3 : tget t3 f2 = Some (P_LINK s o)).
-  { unfold tget. pose proof (fresh_ge3 t1). destruct (Z.ltb_spec f2 0); [unfold f2 in *; lia|]. cbn [tfind]. rewrite Z.eqb_refl. reflexivity. }
+  { unfold t3, tget. pose proof (fresh_ge3 t1). destruct (Z.ltb_spec f2 0); [unfold f2 in *; lia|]. cbn [tfind]. rewrite Z.eqb_refl. reflexivity. }
   rewrite (run_bind s rp). unfold os, map_err, w_readlinkat, rustix_path.
   rewrite (tget_valid _ _ _ Hf3). cbn [negb has_nul has_byte existsb bind Static.run].
   unfold answer. cbn [sem]. rewrite Hf3. cbn [is_nil negb].
@@ -213,11 +216,49 @@ Proof.
   rewrite Hle. replace (P_LINK s o - S (S (PB s)))%nat with o by (unfold P_LINK; lia).
   rewrite Hpath. cbn [as_bytes]. rewrite Hlen. cbn [bind Static.run].
   rewrite (run_bind s rp), run_close. cbn [Static.run].
-  unfold t3. cbn [tdel filter fst]. rewrite Z.eqb_refl. cbn [negb].
-  rewrite tdel_notin; [reflexivity|].
+  unfold t3. rewrite tdel_cons_same; [reflexivity|].
   destruct (tfind t f2) as [x|] eqn:E; [|reflexivity].
   apply tfind_in in E. pose proof (fresh_gt t f2 x E). pose proof (fresh_gt t1 f1 (P_THREAD s) (or_introl eq_refl)).
   unfold f2, f1 in *. lia.
 Qed.
 
 End PF.
+
+(* ---- the d_path premise, discharged --------------------------------------------------- *)
+
+(* properties of the tree (not of the code): every object has one path, [find_path]
+   finds it, and its rendering fits the library's readlink buffer.  Hard links give an
+   object two paths: such trees are outside this theorem (the kernel answers with the
+   path the descriptor was opened by, which a table of objects cannot express). *)
+Definition paths_found (s : fs) : Prop :=
+  forall o exp, FSModel.descend s ROOT exp = Some o -> find_path s o = Some exp.
+Definition paths_short (s : fs) (rp : bytes) : Prop :=
+  forall o exp, FSModel.descend s ROOT exp = Some o ->
+    N.leb READLINK_BUF (N.of_nat (length (render rp exp))) = false.
+
+Lemma render_abs exp : forall acc, is_abs acc = true ->
+  is_abs (fold_left (fun a c => a ++ SLASH :: c) exp acc) = true.
+Proof.
+  induction exp as [|c t IH]; intros acc H; cbn [fold_left]; [exact H|]. apply IH.
+  destruct acc; [discriminate|exact H].
+Qed.
+
+Lemma render_nf exp : Forall name_ok exp -> forall acc,
+  nf (fold_left (fun a c => a ++ SLASH :: c) exp acc) = nf acc ++ exp.
+Proof.
+  induction 1 as [|c t Hc _ IH]; intro acc; cbn [fold_left]; [rewrite app_nil_r; reflexivity|].
+  rewrite IH, nf_slash, (nf_name c Hc), <- app_assoc. reflexivity.
+Qed.
+
+Theorem getpath_static s rp fz gh pf :
+  fz <> 0%nat -> ph_mnt gh = Some PROC_MNT -> ph_openat2 gh = true ->
+  is_abs rp = true -> names_ok s -> paths_found s -> paths_short s rp ->
+  getpath_ok s rp [(ph_fd gh, PB s)] (nf rp) (as_unsafe_path fz true (S pf) gh).
+Proof.
+  intros Hfz Hmnt Ho2 Habs Hnames Hfound Hshort t fd o exp Hfr Hfd Hexp.
+  destruct (Hfr (ph_fd gh) (PB s) (or_introl eq_refl)) as [HP _].
+  exists (render rp exp). split; [|split].
+  - apply (run_as_unsafe_path s rp fz Hfz gh Hmnt Ho2 pf t fd o exp HP Hfd (Hfound o exp Hexp) (Hshort o exp Hexp)).
+  - apply render_abs, Habs.
+  - apply render_nf. exact (descend_names s Hnames exp ROOT o Hexp).
+Qed.
